@@ -17,7 +17,7 @@ def loop_ranks(k):
     return list(LOOP[3 - k:])
 
 
-def rows_of(k, slots, inner_step=2, outer_coord_offset=1):
+def rows_of(k, slots, inner_step=2, outer_step=1, outer_coord_offset=1):
     """Turn slots ((level, pos, kind), ...) into (reads, writes).
 
     A row is (stamp, point, fiber_pos).  `level` says which loop rank advances
@@ -25,7 +25,9 @@ def rows_of(k, slots, inner_step=2, outer_coord_offset=1):
     rank j advances and everything below restarts at 0); it is ignored for the
     first slot.  A slot occupies two innermost iteration positions, the read
     at 2j and the write at 2j+1 (the convention of the populate read/write
-    traces), so stamps are globally distinct and strictly increasing.
+    traces), so stamps are globally distinct and strictly increasing; an
+    outer rank advances by `outer_step` (2 when the outer rank is itself
+    populated: iteration m reads at 2m and writes at 2m+1).
     Coordinates of the outer ranks are position+1 (so a confusion of stamp and
     point columns is visible); the innermost coordinate is the fiber position.
     kind: 'r' read, 'w' write, 'b' read then write."""
@@ -37,7 +39,7 @@ def rows_of(k, slots, inner_step=2, outer_coord_offset=1):
         elif lvl >= k - 1:
             cur[k - 1] += inner_step
         else:
-            cur[lvl] += 1
+            cur[lvl] += outer_step
             for d in range(lvl + 1, k):
                 cur[d] = 0
         point = tuple(c + outer_coord_offset for c in cur[:-1]) + (pos,)
